@@ -210,6 +210,37 @@ namespace vh
                 {
                     threw = exc_kind(e);
                 }
+                // the same erodibility VALUE handed over again in another form (set_k_coef accepts any
+                // xtensor expression): column-major container, lazy expression, lazy flipped view of the
+                // eroder's own array
+                const std::string kform = s.get_str("kform", "");
+                if (er && karr && threw.empty() && !kform.empty())
+                {
+                    if (kform == "col")
+                    {
+                        std::vector<size_t> shp(kv.shape().begin(), kv.shape().end());
+                        xt::xarray<double, xt::layout_type::column_major> kc
+                            = xt::xarray<double, xt::layout_type::column_major>::from_shape(shp);
+                        if (shp.size() == 2)
+                        {
+                            for (size_t r = 0; r < shp[0]; ++r)
+                                for (size_t c = 0; c < shp[1]; ++c)
+                                    kc(r, c) = kv(r, c);
+                        }
+                        else
+                            for (size_t i = 0; i < n; ++i)
+                                kc(i) = kv(i);
+                        er->set_k_coef(kc);
+                    }
+                    else if (kform == "expr")
+                        er->set_k_coef(kv * 2.0 - kv);
+                    else if (kform == "flip_own" && er->k_coef().dimension() == kv.dimension())
+                    {
+                        xt::xarray<double> rev = xt::flip(kv, 0);
+                        er->set_k_coef(rev);
+                        er->set_k_coef(xt::flip(er->k_coef(), 0));
+                    }
+                }
                 if (er && eid >= 0)
                     h.eroders[eid] = er;
             }
